@@ -92,6 +92,9 @@ type Case struct {
 	Nontrivial bool
 	Key        string // distinctness key; defaults to Line
 	Branch     string // branch label for the histogram
+	// Post, if set, decides the comparison instead of string equality: it receives the model's reply
+	// and returns "" when it corresponds to the implementation's behaviour, else what differs.
+	Post func(modelReply string) string
 }
 
 // Violation is a property-level counterexample found by a direct oracle on the implementation.
@@ -207,13 +210,20 @@ func (c *Ctx) runDriver() error {
 		got := sc.Text()
 		cs := c.cases[i]
 		i++
-		if cs.Want == "" {
+		if cs.Want == "" && cs.Post == nil {
 			continue
 		}
 		c.rep.ModelCompared++
-		if got != cs.Want {
+		differs := got != cs.Want
+		want := cs.Want
+		if cs.Post != nil {
+			why := cs.Post(got)
+			differs = why != ""
+			want = "(post-check) " + why
+		}
+		if differs {
 			if len(c.rep.Disagreements) < 20 {
-				c.rep.Disagreements = append(c.rep.Disagreements, Disagreement{cs.Line, cs.Want, got, cs.Desc})
+				c.rep.Disagreements = append(c.rep.Disagreements, Disagreement{cs.Line, want, got, cs.Desc})
 			} else {
 				c.rep.Disagreements = append(c.rep.Disagreements[:20], Disagreement{"(more)", "", "", nil})
 			}
